@@ -36,7 +36,7 @@ ANCHOR_FILES = ("_core", "_namespace", "_typehints", "_util", "_common")
 NO_SHRINK = ("parser/opts", "parser/opts/*", "world", "world/*")
 SHRINK_DICTS = ("ops/*/obj", "ops/*/env", "ops/*/base", "ops/*/ns")
 
-FEATS = ["l", "ll", "d", "dl", "t", "st", "tl", "x", "n", "p", "inner", "dd", "dg", "obj", "objs", "dobjs", "odobjs", "holder", "model", "pr", "sd", "dcf", "ostr"]
+FEATS = ["l", "ll", "d", "dl", "t", "st", "tl", "x", "n", "p", "inner", "dd", "dg", "obj", "objs", "dobjs", "odobjs", "holder", "model", "pr", "sd", "dcf", "ostr", "sub", "subreq"]
 
 
 def parser_spec(feats, eoe):
@@ -88,6 +88,19 @@ def parser_spec(feats, eoe):
     if "model" in feats:
         A.append({"k": "class", "cls": "Model", "name": "model"})
         A.append({"k": "link", "src": "a", "dst": "model.width", "fn": "double"})
+    if "sub" in feats:
+        # subcommands: get_subcommands() is a getter that normalises the config it is handed (adds the implied
+        # choice, deletes the settings of the other subcommands), so every caller has to hand it a copy
+        A.append(
+            {
+                "k": "subcommands",
+                "required": "subreq" in feats,
+                "cmds": {
+                    "fit": {"opts": {"exit_on_error": eoe}, "args": [{"k": "arg", "name": "lr", "type": "float", "default": 0.1}, {"k": "arg", "name": "tags", "type": "list_float", "default": [1]}]},
+                    "test": {"opts": {"exit_on_error": eoe}, "args": [{"k": "arg", "name": "n", "type": "int", "default": 1}, {"k": "arg", "name": "ck", "type": "opt_base", "default": None}]},
+                },
+            }
+        )
     opts = {"exit_on_error": eoe}
     if "sd" in feats:
         vals = {}
@@ -127,7 +140,17 @@ OBJ = {
     "odobjs": [{"odobjs": {"__odict__": [["k", {"class_path": "dsim.simtypes.Base", "init_args": {"tags": [1]}}], ["j", SUB1]]}}],
     "holder": [{"holder": {"class_path": "dsim.simtypes.Holder"}}, {"holder": {"class_path": "dsim.simtypes.Holder", "init_args": {"inner": {"class_path": "dsim.simtypes.Base", "init_args": {"tags": [2]}}}}}],
     "model": [{"model": {"base": {"class_path": "dsim.simtypes.Sub1", "init_args": {"opts": {"a": 3}}}}}, {"model": {"name": "q"}}],
+    "sub": [{"subcommand": "fit", "fit": {"lr": 0.5, "tags": [2, 3]}}, {"test": {"n": 2}}, {"subcommand": "test", "test": {"ck": {"class_path": "dsim.simtypes.Base", "init_args": {"tags": [1]}}}}, {"fit": {"lr": "bad"}}, {"subcommand": "nope"}],
 }
+# un-normalised configs a caller can build by hand or with merge_config: settings of several subcommands with or
+# without the explicit choice (only ever put into a config directly, {"__ns__": ..} -> Namespace)
+RAWSUB = [
+    {"subcommand": "fit", "fit": {"__ns__": {"lr": 0.5, "tags": [2.0]}}, "test": {"__ns__": {"n": 2, "ck": None}}},
+    {"subcommand": "test", "fit": {"__ns__": {"lr": 0.5, "tags": [2.0]}}, "test": {"__ns__": {"n": 2, "ck": None}}},
+    {"subcommand": None, "fit": {"__ns__": {"lr": 0.5, "tags": [2.0]}}},
+    {"subcommand": None, "fit": {"__ns__": {"lr": 0.5, "tags": [2.0]}}, "test": {"__ns__": {"n": 2, "ck": None}}},
+    {"subcommand": "fit", "fit": {"__ns__": {"lr": 0.5, "tags": [2.0]}}},
+]
 ARGV = {
     "_": [[], ["--a=x"], ["--a=3"], ["--cfg", "A/main.yaml"], ["--cfg", "A/bad.yaml"], ["--print_config"], ["--help"], ["--zz=1"]],
     "l": [["--l+=3"], ["--l=[4,5]"]],
@@ -141,6 +164,7 @@ ARGV = {
     "holder": [["--holder=Holder"], ["--holder=Holder", "--holder.inner=Base"]],
     "model": [["--model.base=Sub1"]],
     "p": [["--p=A/pa.txt"]],
+    "sub": [["fit"], ["fit", "--lr=0.3", "--tags+=4"], ["test", "--n=3"], ["test", "--ck=Base", "--ck.tags+=2"], ["fit", "--lr=bad"], ["nope"]],
 }
 KINDS = ["parse_object", "parse_object", "parse_object_ns", "parse_object_base", "parse_args", "parse_args_ns", "parse_args_nodefaults", "parse_path_obj", "save_obj", "inst_empty", "parse_string", "parse_env", "parse_path", "validate", "dump", "save", "merge", "strip", "inst", "defaults", "help", "inst2"]
 
@@ -159,8 +183,12 @@ def gen_obj(rng, feats, n=None):
 
 def gen_argv(rng, feats):
     out = []
-    for _ in range(rng.choice([1, 1, 2])):
-        out += _pick(rng, ARGV, feats)
+    picks = [_pick(rng, ARGV, feats) for _ in range(rng.choice([1, 1, 2]))]
+    picks.sort(key=lambda a: bool(a) and not a[0].startswith("-"))  # a subcommand and its options come last
+    for a in picks:
+        out += a
+        if a and not a[0].startswith("-"):
+            break
     return out
 
 
@@ -180,7 +208,7 @@ def gen_op(rng, feats):
         o = gen_obj(rng, [f for f in feats if f not in ("t", "st", "tl", "x")])
         op["text"] = json.dumps(o) if rng.random() < 0.9 else "a: [1\n"
     elif kind == "parse_env":
-        op["env"] = rng.choice([{"APP_A": "1", "APP_L": "[1,2]"}, {"APP_A": "x"}, {"APP_CFG": "A/main.yaml"}, {}])
+        op["env"] = rng.choice([{"APP_A": "1", "APP_L": "[1,2]"}, {"APP_A": "x"}, {"APP_CFG": "A/main.yaml"}, {}] + ([{"APP_SUBCOMMAND": "fit", "APP_FIT__LR": "0.4"}, {"APP_TEST__N": "3"}] if "sub" in feats else []))
     elif kind == "parse_path":
         op["path"] = rng.choice(["A/main.yaml", "A/bad.yaml", "A/nofile.yaml", "A/plain.yaml"])
     elif kind == "parse_path_obj":
@@ -193,6 +221,8 @@ def gen_op(rng, feats):
         # how the config the op receives is obtained (not judged), then raw caller-owned containers put into it
         op["base"] = {"obj": gen_obj(rng, feats), "skip_validation": rng.random() < 0.3} if rng.random() < 0.7 else {"argv": gen_argv(rng, feats)}
         op["raw"] = _pick(rng, OBJ, feats) if rng.random() < 0.6 else {}
+        if "sub" in feats and rng.random() < 0.5:
+            op["raw"] = copy.deepcopy(rng.choice(RAWSUB))
         if kind == "merge":
             op["base2"] = {"obj": gen_obj(rng, feats), "skip_validation": True}
         if kind == "dump":
@@ -238,6 +268,10 @@ def realise(v):
             return tuple(realise(x) for x in v["__tuple__"])
         if "__set__" in v:
             return set(v["__set__"])
+        if "__ns__" in v:
+            from jsonargparse import Namespace
+
+            return Namespace(**{k: realise(x) for k, x in v["__ns__"].items()})
         if "__odict__" in v:
             import collections
 
